@@ -127,6 +127,11 @@ def check_ms(ctx, mss):
         forms = [base + "." + frac6, base + "." + frac6[:3], base + "." + frac6 + "+00:00", base + "." + frac6[:3] + "+00:00"]
         if ms % 1000 == 0:
             forms += [base, base + "+00:00"]
+        # every number of fraction digits that writes this instant exactly: .5, .25, .125, .1250, .12500
+        stripped = frac6.rstrip("0")
+        for nd in range(max(len(stripped), 1), 6):
+            if nd not in (3, 6):
+                forms += [base + "." + frac6[:nd], base + "." + frac6[:nd] + "+00:00"]
         for s in forms:
             o5 = call(T.strptime_to_utc_datetime, s)
             o6 = call(T.strptime_to_utc_epoch, s)
